@@ -294,6 +294,9 @@ func genWorkload(t *rapid.T, l string, ns string, cfg *GenCfg) Workload {
 		wl.Ports = append(wl.Ports, cp)
 	}
 	wl.SplitContainers = np >= 2 && rapid.IntRange(0, 3).Draw(t, l+"split") == 0
+	if np >= 1 && rapid.IntRange(0, 3).Draw(t, l+"helper") == 0 {
+		wl.Helper = rapid.IntRange(1, 3).Draw(t, l+"helperpos")
+	}
 	if rapid.IntRange(0, 3).Draw(t, l+"objlab") == 0 {
 		// decoy labels on the controller object itself (only the pod template's labels count)
 		wl.ObjLabels = genLabels(t, l+"objl", 2)
